@@ -201,6 +201,8 @@ def prefix_pair_case(draw, formats, tier):
         pair[1]["name"] = stem
         case["cfg"]["keep_glyph_names"] = True
     used = {tuple(s["cps"]) for s in pair}
+    if pair[1].get("name") == "g":
+        used.add((0x67,))  # U+0067 alone is named "g" by default: two inputs for one glyph name is a (correct) refusal (A42)
     rest = [s for s in case["sources"] if tuple(s["cps"]) not in used]
     k = draw(st.integers(0, len(rest)))
     case["sources"] = rest[:k] + pair + rest[k:]
